@@ -192,12 +192,16 @@ template <class Ch> struct exact
 {
   std::unique_ptr<Ch[]> p;
   std::size_t n;
-  explicit exact(std::basic_string<Ch> const &s) : p(new Ch[s.size()]), n(s.size())
+  // ASan serves a zero-size request with a one-byte block, so an empty view points at the end of a
+  // one-element block instead: begin() == end() is the first poisoned address in both cases.
+  explicit exact(std::basic_string<Ch> const &s) : p(new Ch[s.empty() ? 1 : s.size()]), n(s.size())
   {
+    if (s.empty())
+      p[0] = Ch();
     for (std::size_t i = 0; i < n; ++i)
       p[i] = s[i];
   }
-  std::basic_string_view<Ch> view() const { return std::basic_string_view<Ch>(p.get(), n); }
+  std::basic_string_view<Ch> view() const { return std::basic_string_view<Ch>(n == 0 ? p.get() + 1 : p.get(), n); }
 };
 
 // all strings over alphabet up to length maxlen, shortest first, in alphabet order
